@@ -905,6 +905,38 @@ func factsWatch(w *strings.Builder) {
 	fmt.Fprintf(w, "/-- F7: fsnotify ops in `eventMask` on non-darwin systems. -/\ndef eventMask : List String := %s\n", leanStrList(mask))
 }
 
+// F2: the tags in the first column of the "Released versions" table of SPEC.md
+func factsSpecMd(w *strings.Builder) {
+	data, err := os.ReadFile(filepath.Join(*repo, "SPEC.md"))
+	if err != nil {
+		die("SPEC.md: %v", err)
+	}
+	var tags []string
+	in := false
+	for _, line := range strings.Split(string(data), "\n") {
+		t := strings.TrimSpace(line)
+		if strings.HasPrefix(t, "#") {
+			in = strings.Contains(strings.ToLower(t), "released versions")
+			continue
+		}
+		if !in || !strings.HasPrefix(t, "|") {
+			continue
+		}
+		cells := strings.Split(t, "|")
+		if len(cells) < 3 {
+			continue
+		}
+		tag := strings.TrimSpace(cells[1])
+		if len(tag) > 1 && tag[0] == 'v' && tag[1] >= '0' && tag[1] <= '9' {
+			tags = append(tags, tag)
+		}
+	}
+	if len(tags) == 0 {
+		die("SPEC.md: no 'Released versions' table with vX.Y.Z tags found")
+	}
+	fmt.Fprintf(w, "/-- F2: the tags listed in the \"Released versions\" table of SPEC.md. -/\ndef specMdReleased : List String := %s\n", leanStrList(tags))
+}
+
 func nodeString(n ast.Node) string {
 	var b strings.Builder
 	ast.Inspect(n, func(m ast.Node) bool {
@@ -929,6 +961,7 @@ func main() {
 	w.WriteString("namespace Cdi.Generated\n\n")
 	inGroup = true
 	group(&w, "F1 versions", factsVersions, "def versionTable : List (String × String) := []\ndef vEarliest : String := \"\"\ndef currentVersion : String := \"\"\ndef specsGoLoopVarPerIteration : Bool := false\ndef rangeVarAddressTaken : List String := [\"factgen-failed\"]\n")
+	group(&w, "F2 SPEC.md", factsSpecMd, "def specMdReleased : List String := []\n")
 	group(&w, "F4 edits", factsEdits, "def hookNames : List String := []\ndef deviceTypes : List String := []\ndef hookDispatch : List (String × String) := []\n")
 	group(&w, "F5 annotations", factsAnnotations, "def annotationPrefix : String := \"\"\ndef maxNameLen : Nat := 0\ndef k8sQualifiedNameFmt : String := \"\"\ndef k8sDns1123SubdomainFmt : String := \"\"\ndef k8sQualifiedNameMaxLength : Nat := 0\ndef k8sDns1123SubdomainMaxLength : Nat := 0\ndef totalAnnotationSizeLimit : Nat := 0\n")
 	group(&w, "F6 extensions", factsExts, "def extTests : List (String × List String) := []\ndef defaultSpecExt : String := \"\"\ndef tmpPattern : String := \"\"\ndef writeCalls : List String := []\n")
